@@ -22,47 +22,91 @@ def _func_int_constants(relpath, clsname, fname):
 
 
 def gen_txbuild():
-    import pycoin.convention as conv
-    import pycoin.convention.tx_fee as tx_fee
-    from pycoin.coins.bitcoin import Tx as TxM, TxIn as TxInM, Spendable as SpM
-    ctx = decimal.getcontext()
-    if ctx.rounding != decimal.ROUND_HALF_EVEN:
-        raise G.GenError("decimal context rounding is %s, the model assumes ROUND_HALF_EVEN" % ctx.rounding)
-    if ctx.Emax < 10000 or ctx.Emin > -10000:
-        raise G.GenError("decimal exponent limits too tight for the model's assumption")
-    fee_lit = G.ast_literal_of("pycoin/convention/tx_fee.py", "TX_FEE_PER_THOUSAND_BYTES")
-    if fee_lit != tx_fee.TX_FEE_PER_THOUSAND_BYTES or type(fee_lit) is not int:
-        raise G.GenError("TX_FEE_PER_THOUSAND_BYTES literal/live mismatch")
-    zero32 = TxM.ZERO32
-    zero_in = TxInM.ZERO
-    for z in (zero32, zero_in):
+    """Shape problems do not abort the whole table run (other properties share it): the affected constant gets a
+    sentinel and gen_c13_shape_ok becomes false, which breaks the named lemma gen_c13_shape in Proofs/TxBuildP.v and
+    Proofs/DecimalConvP.v, i.e. exactly C13's proof obligations (fail-closed, locally)."""
+    problems = []
+
+    def attempt(what, f, sentinel):
+        try:
+            return f()
+        except Exception as e:  # noqa
+            problems.append("%s: %s: %s" % (what, type(e).__name__, str(e).replace("*)", "* )")[:200]))
+            return sentinel
+
+    def conv_const(name):
+        import pycoin.convention as conv
+        return _dec(getattr(conv, name))
+
+    def ctx_prec():
+        ctx = decimal.getcontext()
+        if ctx.rounding != decimal.ROUND_HALF_EVEN:
+            raise G.GenError("decimal context rounding is %s, the model assumes ROUND_HALF_EVEN" % ctx.rounding)
+        if ctx.Emax < 10000 or ctx.Emin > -10000:
+            raise G.GenError("decimal exponent limits too tight for the model's assumption")
+        if type(ctx.prec) is not int or ctx.prec < 1:
+            raise G.GenError("unexpected precision")
+        return G.coq_Z(ctx.prec)
+
+    def fee_const():
+        import pycoin.convention.tx_fee as tx_fee
+        fee_lit = G.ast_literal_of("pycoin/convention/tx_fee.py", "TX_FEE_PER_THOUSAND_BYTES")
+        if fee_lit != tx_fee.TX_FEE_PER_THOUSAND_BYTES or type(fee_lit) is not int:
+            raise G.GenError("TX_FEE_PER_THOUSAND_BYTES literal/live mismatch")
+        return G.coq_Z(fee_lit)
+
+    def zero_const(modname, attr):
+        import importlib
+        m = importlib.import_module("pycoin.coins.bitcoin." + modname)
+        z = getattr(m, attr)
         if not isinstance(z, bytes):
-            raise G.GenError("ZERO constant is not bytes")
-    cb = _func_int_constants("pycoin/coins/bitcoin/TxIn.py", "TxIn", "is_coinbase")
-    if len(cb) != 1:
-        raise G.GenError("TxIn.is_coinbase: expected exactly one integer literal, got %r" % (cb,))
-    sig = inspect.signature(SpM.Spendable.tx_in)
-    d_script = sig.parameters["script"].default
-    d_seq = sig.parameters["sequence"].default
-    if not isinstance(d_script, bytes) or type(d_seq) is not int:
-        raise G.GenError("Spendable.tx_in defaults have unexpected types")
+            raise G.GenError("%s.%s is not bytes" % (modname, attr))
+        return G.coq_bytes(z)
+
+    def coinbase_index():
+        cb = _func_int_constants("pycoin/coins/bitcoin/TxIn.py", "TxIn", "is_coinbase")
+        if len(cb) != 1:
+            raise G.GenError("TxIn.is_coinbase: expected exactly one integer literal, got %r" % (cb,))
+        return G.coq_Z(cb[0])
+
+    def txin_default(which):
+        from pycoin.coins.bitcoin import Spendable as SpM
+        sig = inspect.signature(SpM.Spendable.tx_in)
+        d = sig.parameters[which].default
+        if which == "script":
+            if not isinstance(d, bytes):
+                raise G.GenError("Spendable.tx_in default script is not bytes")
+            return G.coq_bytes(d)
+        if type(d) is not int:
+            raise G.GenError("Spendable.tx_in default sequence is not an int")
+        return G.coq_Z(d)
+
+    zdec = "(false, (0)%Z, (0)%Z)"
+    vals = [
+        ("(* pycoin/convention/__init__.py: live Decimal objects as (sign, coefficient, exponent) *)", None, None),
+        ("gen_satoshi_per_coin", "bool * Z * Z", attempt("SATOSHI_PER_COIN", lambda: conv_const("SATOSHI_PER_COIN"), zdec)),
+        ("gen_coin_per_satoshi", "bool * Z * Z", attempt("COIN_PER_SATOSHI", lambda: conv_const("COIN_PER_SATOSHI"), zdec)),
+        ("gen_satoshi_to_mbtc", "bool * Z * Z", attempt("SATOSHI_TO_MBTC", lambda: conv_const("SATOSHI_TO_MBTC"), zdec)),
+        ("gen_mbtc_per_satoshi", "bool * Z * Z", attempt("MBTC_PER_SATOSHI", lambda: conv_const("MBTC_PER_SATOSHI"), zdec)),
+        ("(* decimal.getcontext(): prec; rounding checked to be ROUND_HALF_EVEN by the generator *)", None, None),
+        ("gen_decimal_prec", "Z", attempt("decimal context", ctx_prec, "(1)%Z")),
+        ("(* pycoin/convention/tx_fee.py *)", None, None),
+        ("gen_tx_fee_per_thousand_bytes", "Z", attempt("TX_FEE_PER_THOUSAND_BYTES", fee_const, "(0)%Z")),
+        ("(* pycoin/coins/bitcoin/Tx.py ZERO32, TxIn.py ZERO and the literal of TxIn.is_coinbase *)", None, None),
+        ("gen_zero32", "list byte", attempt("Tx.ZERO32", lambda: zero_const("Tx", "ZERO32"), "[]")),
+        ("gen_txin_zero", "list byte", attempt("TxIn.ZERO", lambda: zero_const("TxIn", "ZERO"), "[]")),
+        ("gen_coinbase_index", "Z", attempt("TxIn.is_coinbase literal", coinbase_index, "(-1)%Z")),
+        ("(* Spendable.tx_in default arguments *)", None, None),
+        ("gen_txin_default_script", "list byte", attempt("tx_in default script", lambda: txin_default("script"), "[]")),
+        ("gen_txin_default_sequence", "Z", attempt("tx_in default sequence", lambda: txin_default("sequence"), "(-1)%Z")),
+    ]
     t = G.HEADER
-    t += "(* pycoin/convention/__init__.py: live Decimal objects as (sign, coefficient, exponent) *)\n"
-    t += "Definition gen_satoshi_per_coin : bool * Z * Z := %s.\n" % _dec(conv.SATOSHI_PER_COIN)
-    t += "Definition gen_coin_per_satoshi : bool * Z * Z := %s.\n" % _dec(conv.COIN_PER_SATOSHI)
-    t += "Definition gen_satoshi_to_mbtc : bool * Z * Z := %s.\n" % _dec(conv.SATOSHI_TO_MBTC)
-    t += "Definition gen_mbtc_per_satoshi : bool * Z * Z := %s.\n" % _dec(conv.MBTC_PER_SATOSHI)
-    t += "(* decimal.getcontext(): prec; rounding checked to be ROUND_HALF_EVEN by the generator *)\n"
-    t += "Definition gen_decimal_prec : Z := %s.\n" % G.coq_Z(ctx.prec)
-    t += "(* pycoin/convention/tx_fee.py *)\n"
-    t += "Definition gen_tx_fee_per_thousand_bytes : Z := %s.\n" % G.coq_Z(fee_lit)
-    t += "(* pycoin/coins/bitcoin/Tx.py ZERO32, TxIn.py ZERO and the literal of TxIn.is_coinbase *)\n"
-    t += "Definition gen_zero32 : list byte := %s.\n" % G.coq_bytes(zero32)
-    t += "Definition gen_txin_zero : list byte := %s.\n" % G.coq_bytes(zero_in)
-    t += "Definition gen_coinbase_index : Z := %s.\n" % G.coq_Z(cb[0])
-    t += "(* Spendable.tx_in default arguments *)\n"
-    t += "Definition gen_txin_default_script : list byte := %s.\n" % G.coq_bytes(d_script)
-    t += "Definition gen_txin_default_sequence : Z := %s.\n" % G.coq_Z(d_seq)
+    for name, ty, v in vals:
+        t += (name + "\n") if ty is None else "Definition %s : %s := %s.\n" % (name, ty, v)
+    t += "(* false when the generator met an unexpected shape in /repo (sentinels above): breaks lemma gen_c13_shape *)\n"
+    for pr in problems:
+        t += "(* PROBLEM %s *)\n" % pr
+    t += "Definition gen_c13_shape_ok : bool := %s.\n" % ("false" if problems else "true")
     return t
 
 
